@@ -7,6 +7,7 @@ import (
 
 	leanhelix "github.com/orbs-network/lean-helix-go"
 	"github.com/orbs-network/lean-helix-go/services/interfaces"
+	"github.com/orbs-network/lean-helix-go/services/randomseed"
 	"github.com/orbs-network/lean-helix-go/spec/types/go/primitives"
 	"github.com/orbs-network/lean-helix-go/spec/types/go/protocol"
 )
@@ -496,3 +497,134 @@ func (w *World) offerGenuineProof() bool {
 }
 
 var _ = primitives.BlockHeight(0)
+
+// syntheticHeightBase: heights from here on never occur in the simulated chain; the block-proof scenario uses them
+// for certificates over committees far larger than the simulated network (the validator is a function of its
+// inputs and of the committee the consumer reports for that height).
+const syntheticHeightBase = 1 << 40
+
+// syntheticProofStep: a committee of 60..140 members that exists only as keys (the harness signs for them), a block
+// and its predecessor at a synthetic height, and certificates over that committee: exactly a quorum, one member
+// short of it, f+1, f, one signer repeated many times (at a low or a high committee position), members repeated in
+// pairs. Real validator nil => reference predicate. Committee size and member position are configuration dimensions
+// the simulated network (4..10 nodes) cannot reach.
+func (w *World) syntheticProofStep() bool {
+	var live []*Node
+	for _, n := range w.honest() {
+		if n.alive && n.height() > 0 {
+			live = append(live, n)
+		}
+	}
+	if len(live) == 0 {
+		return false
+	}
+	victim := live[w.ch.Pick("proof-victim", len(live))]
+	size := []int{60, 63, 64, 65, 70, 100, 129, 140}[w.ch.Pick("syn-size", 8)]
+	w.synN++
+	h := uint64(syntheticHeightBase) + uint64(w.synN)*2
+	wmode := w.ch.Pick("syn-wmode", 3)
+	var comm []interfaces.CommitteeMember
+	var idx []int
+	for i := 0; i < size; i++ {
+		id := primitives.MemberId(fmt.Sprintf("syn%02d-%03d", w.synN%100, i))
+		idx = append(idx, w.keys.addMember(0xC0FFEE, id))
+		wt := uint64(1)
+		switch wmode {
+		case 1:
+			wt = uint64(1 + w.ch.Pick("syn-w", 4))
+		case 2:
+			if i == size-1 {
+				wt = uint64(size / 4)
+			}
+		}
+		comm = append(comm, interfaces.CommitteeMember{Id: id, Weight: primitives.MemberWeight(wt)})
+	}
+	w.comms[h] = comm
+	w.comms[h-1] = comm
+	W, f, q := thresholds(comm)
+	_ = W
+	blk := w.freshBlock(h, 0, false)
+	prevBlk := w.freshBlock(h-1, 0, false)
+	// predecessor certificate: only its seed signature matters to the validator of h
+	prevSeed := []byte(fmt.Sprintf("synthetic-seed-%d", w.synN))
+	prevRef := refBuilder(protocol.LEAN_HELIX_COMMIT, w.instance, h-1, 0, prevBlk.Hash())
+	prevProof := proofSpec{ref: prevRef, seed: prevSeed}.bytes()
+	content := randomseed.RandomSeedToBytes(randomseed.CalculateRandomSeed(prevSeed))
+	seedSig := w.keys.AggSig(h, content)
+	for _, n := range w.honest() {
+		if n.obs.shareContent == nil {
+			n.obs.shareContent = map[uint64][]byte{}
+		}
+		n.obs.shareContent[h] = cp(content) // what the (synthetic) members of that height sign as their share
+	}
+	ref := refBuilder(protocol.LEAN_HELIX_COMMIT, w.instance, h, 0, blk.Hash())
+	sign := func(i int) Sig { return Sig{comm[i].Id, w.keys.SignMsg(idx[i], h, ref.Build().Raw())} }
+	weightOf := func(i int) uint64 { return uint64(comm[i].Weight) }
+	upTo := func(target uint64) []Sig {
+		var out []Sig
+		var sum uint64
+		for i := 0; i < size && sum < target; i++ {
+			if sum+weightOf(i) <= target {
+				out = append(out, sign(i))
+				sum += weightOf(i)
+			}
+		}
+		return out
+	}
+	repeat := func(i int, times int) []Sig {
+		var out []Sig
+		for k := 0; k < times; k++ {
+			out = append(out, sign(i))
+		}
+		return out
+	}
+	name := ""
+	var nodes []Sig
+	switch w.ch.Pick("syn-kind", 8) {
+	case 0:
+		name, nodes = "syn-quorum", upTo(q)
+	case 1:
+		name, nodes = "syn-below-quorum", upTo(q-1)
+	case 2:
+		name, nodes = "syn-f-plus-1", upTo(f+1)
+	case 3:
+		name, nodes = "syn-at-f", upTo(f)
+	case 4: // one member repeated until its copies would weigh a quorum
+		i := w.ch.Pick("syn-pos", size)
+		name, nodes = "syn-one-member-repeated", repeat(i, int(q/weightOf(i))+1)
+	case 5: // the same, at the highest positions
+		i := size - 1 - w.ch.Pick("syn-pos-hi", 3)
+		name, nodes = "syn-one-member-repeated-high-position", repeat(i, int(q/weightOf(i))+1)
+	case 6: // f+1 worth of copies (soft mode boundary)
+		i := size - 1 - w.ch.Pick("syn-pos-hi", 6)
+		name, nodes = "syn-one-member-repeated-soft", repeat(i, int(f/weightOf(i))+1)
+	default: // below quorum, the last third of the signers listed twice
+		base := upTo(q - 1)
+		nodes = append(nodes, base...)
+		nodes = append(nodes, base[len(base)*2/3:]...)
+		name = "syn-tail-duplicated"
+	}
+	raw := proofSpec{ref: ref, nodes: nodes, seed: seedSig}.bytes()
+	soft := w.ch.Pick("forge-soft", 2) == 1
+	w.action("forge-proof")
+	w.stats.Fault("byz.forged-block-proof")
+	w.use("byz.forged-block-proof/" + name)
+	w.probe("synthetic-committee-proof")
+	for _, mode := range []bool{soft, !soft} {
+		var err error
+		panicked := false
+		func() {
+			defer func() {
+				if r := recover(); r != nil {
+					panicked, err = true, fmt.Errorf("panic: %v", r)
+				}
+			}()
+			err = victim.lh.ValidateBlockConsensus(context.Background(), blk, raw, prevBlk, prevProof, mode)
+		}()
+		w.judgeVerdict(victim, blk, raw, h, mode, fmt.Sprintf("%s/n=%d", name, size), err, panicked)
+		if w.viol != nil {
+			break
+		}
+	}
+	return true
+}
